@@ -48,7 +48,7 @@ Definition prop_quota (c : qcase) (obs : list (qsnap * qsnap)) : Z :=
 
 Definition qdesc_ok (nq : Z) (d : qdesc) : bool :=
   (1 <=? qd_quota d) && (qd_quota d <=? nq) && (0 <=? qd_cpu d) && (0 <=? qd_mem d).
-Definition qcase_ok (c : qcase) : bool := forallb (qdesc_ok (q_nq c)) (q_descs c) && (0 <=? q_nq c).
+Definition qcase_ok (c : qcase) : bool := forallb (qdesc_ok (q_nq c)) (q_descs c) && (0 <=? q_nq c) && q_first c.
 (* no pod is terminated-but-not-deleted at any cut *)
 Definition no_terminated (c : qcase) : bool := forallb (fun op => negb (fst op =? 7)) (q_ops c).
 
